@@ -11,6 +11,8 @@ import (
 	"fmt"
 	"net/http"
 	"net/url"
+	"os"
+	"path/filepath"
 	"strings"
 	"time"
 
@@ -279,6 +281,75 @@ func init() {
 			}
 			e.close()
 		}
-		c.close([]string{"np:mutant", "np:seed", "np:4xx", "np:served", "cfg:ok", "np:form-session"})
+		// ---- moments of the deployment's life: the session of a waiting request vanishes from the shared store (signed out through
+		// another instance, expired, Redis restarted) or the store fails, exactly when the request re-reads it under the refresh lock
+		if e, err := newEnv(c, proxyCfg{Redis: true, CookieRefresh: time.Second, InjectRequest: defaultInject()}); err == nil {
+			rec := e.instrument()
+			u := defaultUser()
+			for i, how := range []string{"key-deleted", "store-fails", "key-deleted-and-lock-lost", "store-fails-after-effect"} {
+				s := e.sessionFor(u, 2*time.Hour)
+				s.RefreshToken = fmt.Sprintf("rt-np-%d-%d", i, time.Now().UnixNano())
+				e.registerRT(s.RefreshToken, u)
+				ck := e.issueSessionCookie(s)
+				plan := &faultPlan{hooks: map[string]func(){}, at: map[string]string{}}
+				switch how {
+				case "key-deleted":
+					plan.hooks["load#2"] = func() { e.mr.FlushAll() }
+				case "store-fails":
+					plan.at["load#2"] = "before"
+				case "key-deleted-and-lock-lost":
+					plan.hooks["obtain#1"] = func() { e.mr.FlushAll() }
+				case "store-fails-after-effect":
+					plan.at["load#2"] = "after"
+				}
+				for _, target := range []string{"/app/x", "/oauth2/auth", "/oauth2/userinfo"} {
+					rec.reset(plan)
+					e.do(reqSpec{Target: target, Cookie: ck}) // (a panic is reported by the request driver)
+					rec.reset(nil)
+					c.count("np:session-vanishes-under-the-lock")
+				}
+				c.casen("np|reload-under-lock|"+how, "")
+				e.mr.FlushAll()
+			}
+			e.close()
+		} else {
+			c.violation("HARNESS", "env: "+err.Error(), nil)
+		}
+		// ---- client-secret-file: the file is read at every code redemption and refresh.  Empty or blank at that moment (a rotation that
+		// truncates before it writes, a secret volume not yet populated after a restart): an error page, then business as usual
+		{
+			dir, _ := os.MkdirTemp("", "verif-np-secret")
+			defer os.RemoveAll(dir)
+			path := filepath.Join(dir, "client-secret")
+			os.WriteFile(path, []byte(tClientSecret), 0o600)
+			if e, err := newEnv(c, proxyCfg{ClientSecretFile: path, CookieRefresh: time.Second, InjectRequest: defaultInject()}); err == nil {
+				u := defaultUser()
+				for _, content := range []string{"", "\n", "  \t \n", tClientSecret + "\n", tClientSecret} {
+					b := newBrowser()
+					_, loc := e.startLogin(b, "/")
+					cb, _, aerr := e.idp.authorize(loc, u)
+					os.WriteFile(path, []byte(content), 0o600)
+					if aerr == nil {
+						cu, _ := url.Parse(cb)
+						v := e.do(reqSpec{Target: cu.RequestURI(), Cookie: b.cookieHeader()})
+						c.casen(fmt.Sprintf("np|secret-file|%q|callback", content), fmt.Sprint(v.Status))
+					}
+					// ... and a refresh at that moment
+					s := e.sessionFor(u, 2*time.Hour)
+					s.RefreshToken = fmt.Sprintf("rt-np-sf-%d", time.Now().UnixNano())
+					e.registerRT(s.RefreshToken, u)
+					e.do(reqSpec{Target: "/app/x", Cookie: e.issueSessionCookie(s)})
+					c.count("np:client-secret-file")
+				}
+				os.WriteFile(path, []byte(tClientSecret), 0o600)
+				if lr := e.login(newBrowser(), u, "/"); !lr.OK {
+					c.violation("C19", "after the client-secret file was empty for a moment and then restored, logins no longer complete", nil)
+				}
+				e.close()
+			} else {
+				c.violation("HARNESS", "env (client-secret-file): "+err.Error(), nil)
+			}
+		}
+		c.close([]string{"np:session-vanishes-under-the-lock", "np:client-secret-file", "np:mutant", "np:seed", "np:4xx", "np:served", "cfg:ok", "np:form-session"})
 	})
 }
